@@ -1,9 +1,10 @@
 /-
-  Known findings C35:runtime:with / C35:runtime:autoescape, exhibited in the model: code emitted with
-  `newline()` / `writeline(x)` WITHOUT its node (compiler.py visit_With:1372, visit_EvalContextModifier:1980) is mapped
-  to the line of the previously recorded statement.  Template: `{% set q = 1 %}\n\n{% with a = boom() %}…` — the
-  assignment `l_1_a = boom()` lands on code line 3, which the table maps to template line 1, not 3.
-  Not an obligation of C35 (built separately).
+  Documents a REPAIRED defect (former findings C35:runtime:with / C35:runtime:autoescape, fixed in /repo by d69e3bf and
+  d82a9b0); kept as a record of the mechanism, it no longer matches the code.  Before the repair, code emitted with
+  `newline()` / `writeline(x)` WITHOUT its node (compiler.py visit_With, visit_EvalContextModifier) was mapped to the
+  line of the previously recorded statement.  Template: `{% set q = 1 %}\n\n{% with a = boom() %}…` — the assignment
+  `l_1_a = boom()` landed on code line 3, which the table mapped to template line 1, not 3 (`with_reported_on_previous_line`);
+  `with_repaired` is what the code does now.  Not an obligation of C35 (built separately).
 -/
 import JinjaV.Model.DebugInfo
 namespace JinjaV.Findings.C35
